@@ -570,3 +570,44 @@ fn c02_search_min_raw() {
     kani::cover!(idx == 0);
     core::mem::forget(lat);
 }
+
+// ---------------------------------------------------------------------------------------
+// dictionary costs reach the lattice unchanged: whole pipeline on a sentence whose only
+// candidate is an unknown word
+// ---------------------------------------------------------------------------------------
+//@ c02_pipe_unknown_cost {"desc":"the cost minimised is the dictionary's: for a sentence whose only candidate is one unknown word, the reported token carries the unk.def entry's left/right ids and cost, its total_cost is cost(BOS,left)+word cost and the sentence cost adds cost(right,EOS)","bounds":"N=1 \"c\"; dictionary {a,ab}, 3 categories with one unk.def entry each, 3x3 matrix","symbolic":"all ids, costs and matrix cells","functions":["Tokenizer::add_lattice_edges","UnkHandler::gen_unk_words","UnkWord::word_param","Lattice::insert_node","Lattice::insert_eos","Lattice::append_top_nodes"],"fs":2048,"unwind":7,"timeout":1200,"mem_gb":16}
+#[cfg(kani)]
+#[kani::proof]
+fn c02_pipe_unknown_cost() {
+    use crate::world::*;
+    let spec = Spec { sys: L_A_AB, user: None, cats: CATS_MIX, unk_mult: &[1, 1, 1], nr: 3, nl: 3 };
+    let tok_owned = tokenizer_of(&spec, false, 0);
+    let tok = &tok_owned;
+    let d = tok.dictionary();
+    // 'c' (U+0003) is DEFAULT = category 0, whose single unk.def entry is entries[0]
+    let e = &d.verif_unk_handler().verif_entries()[0];
+    let (el, er, ec) = (e.left_id, e.right_id, i32::from(e.word_cost));
+    let m = matrix_of(d.verif_connector());
+    let mut w = tok.new_worker();
+    w.reset_sentence("\u{3}");
+    w.tokenize();
+    assert!(w.num_tokens() == 1);
+    let top = w.verif_top_nodes();
+    let (_, n) = &top[0];
+    assert!(n.left_id == el && n.right_id == er, "the unknown token does not carry its unk.def entry's connection ids");
+    let mut c_in = 0;
+    let mut c_out = 0;
+    for i in 0..3u16 {
+        if i == el {
+            c_in = m.cost(0, i);
+        }
+        if i == er {
+            c_out = m.cost(i, 0);
+        }
+    }
+    assert!(n.min_cost == c_in + ec, "total_cost of the unknown token is not cost(BOS,left) + word cost of its unk.def entry");
+    assert!(w.verif_lattice().verif_eos().unwrap().min_cost == c_in + ec + c_out, "sentence cost is not the accumulated dictionary cost");
+    kani::cover!(el == 1 && er == 2);
+    core::mem::forget(w);
+    core::mem::forget(tok_owned);
+}
